@@ -22,6 +22,8 @@ def one(name):
         for pid in claimed:
             if os.environ.get("SKIP_MIR") == "1" and pid in mir_props:
                 continue
+            if os.environ.get("ONLY") and pid not in os.environ["ONLY"].split(","):
+                continue
             env = dict(os.environ, VERIF_REPO=tmp, VERIF_EVIDENCE_DIR=etmp)
             rr = subprocess.run([os.path.join(VERIF, "bin/check"), pid, "--quick"], env=env, capture_output=True, text=True)
             if rr.returncode != 0:
